@@ -158,6 +158,21 @@ func verifFileRec() int {
 			}
 			fr.Status.TimeOn = time.Duration(v) * time.Millisecond
 			err = rec.WriteFrame(fr)
+		case "writen":
+			// writen <count> <first>: count frames, frame j uniform with value (first+j)%60000+1
+			n, _ := strconv.Atoi(f[1])
+			first, _ := strconv.Atoi(f[2])
+			fr := cptvframe.NewFrame(cam)
+			for j := 0; j < n && err == nil; j++ {
+				v := (first+j)%60000 + 1
+				for y := range fr.Pix {
+					for x := range fr.Pix[y] {
+						fr.Pix[y][x] = uint16(v)
+					}
+				}
+				fr.Status.TimeOn = time.Duration(v) * time.Millisecond
+				err = rec.WriteFrame(fr)
+			}
 		case "stop":
 			err = rec.StopRecording()
 		case "start2":
